@@ -252,6 +252,49 @@ def check_derivative(ctx):
                'the model interfaces do not replace the forwarding wrapper', 'resolved in %s' % dc)
 
 
+def check_constructor_reactions(ctx):
+    """Model(reactions=[...]) hands every reaction tuple to create_reaction with its own fields: the constructor's loop is evaluated
+    (templates.StrExec) on a sample list that mixes 8-tuples (with delay fields) and 4-tuples in both orders - a 4-tuple has no delay,
+    whatever came before it."""
+    from ..templates import StrExec, Hole, UNKNOWN
+    f = ctx.fn('types:Model.__init__')
+    dc, cr = ctx.prog.resolve_method('Model', 'create_reaction')
+    cr_params = [a.arg for a in cr.args.args[1:]]
+    sample = [[[Hole('A')], [Hole('B')], 'massaction', {'k': 1.0}, 'fixed', [Hole('DA')], [Hole('DB')], {'delay': 2.0}],
+              [[Hole('B')], [Hole('C')], 'massaction', {'k': 2.0}],
+              [[Hole('C')], [], 'massaction', {'k': 3.0}, 'gamma', [], [Hole('DC')], {'k': 2.0, 'theta': 1.0}],
+              [[Hole('A')], [Hole('C')], 'massaction', {'k': 4.0}]]
+    got = []
+
+    def hook(n, ex):
+        if isinstance(n.func, ast.Attribute) and n.func.attr == 'create_reaction' and src(n.func.value) == 'self':
+            vals = dict(zip(cr_params, [ex.ev(a) for a in n.args]))
+            for kw in n.keywords:
+                if kw.arg is not None:
+                    vals[kw.arg] = ex.ev(kw.value)
+            got.append([vals.get(p_) for p_ in cr_params[:8]])
+        return None
+    env = {}
+    ex = StrExec(env, tracked=set(), call_hook=hook)
+    dfl = f.args.defaults
+    for a, dv in zip(f.args.args[len(f.args.args) - len(dfl):], dfl):
+        env[a.arg] = ex.ev(dv)
+    env.update({'reactions': [list(r) for r in sample], 'species': [], 'parameters': [], 'rules': [], 'initial_condition_dict': None,
+                'sbml_filename': None, 'filename': None, 'initialize_model': False, 'input_printout': False})
+    ex.env = env
+    ex.frozen = set(env)
+    ex.run(f.body)
+    want = [r + [None] * (8 - len(r)) for r in sample]
+    ok = not ex.aborted and got == want
+    detail = ''
+    if not ok:
+        bad = [i for i in range(min(len(got), len(want))) if got[i] != want[i]]
+        detail = ('reaction %d of the sample list is created as %r, the tuple says %r' % (bad[0], got[bad[0]], want[bad[0]])) if bad else \
+            '%d create_reaction calls for %d tuples%s' % (len(got), len(want), ' (%s)' % ex.aborted if ex.aborted else '')
+    ctx.ob('R3.1-accumulation', 'constructor-tuples', ok, ctx.loc('types', f),
+           'the constructor hands each reaction tuple to create_reaction with its own fields; a 4-tuple carries no delay fields (4 sample tuples)', detail)
+
+
 def check_init(ctx):
     f = ctx.fn('types:Model._initialize')
     txt = [k(util.stmt_key(s)) for s in f.body]
@@ -311,6 +354,7 @@ def check(ctx):
     check_accumulation(ctx)
     check_tuple(ctx)
     check_matrices(ctx)
+    check_constructor_reactions(ctx)
     check_derivative(ctx)
     check_init(ctx)
     # "follow the reaction list": the matrices are built when the model is initialised, so every method that changes the reaction
